@@ -1,7 +1,7 @@
 #!/bin/bash
 # usage: lib/seed_batch.sh C16 C05 ...   confirm /tmp/seedwt/<P>.out/{1,2} and run the checks against them
 cd /verif
-for P in "$@"; do for N in 1 2 3 4 5 6; do
+for P in "$@"; do for N in 1 2 3 4 5 6 7 8; do
   if [ -d /tmp/seedwt/$P.out/$N ] && [ ! -f /verif/seeded/$P-s$N/result.json ]; then
     r=$(lib/confirm_seed.sh /tmp/seedwt/$P.out/$N $P-s$N $P 2>&1 | grep -E "^without-patch|^CONFIRMED")
     echo "$P-s$N: $(echo $r | tr '\n' ' ')"
